@@ -1982,6 +1982,17 @@ bool Node::perform_handshake(const PeerId& peer_id,
     const auto now = std::chrono::steady_clock::now();
     const auto key = peer_id_to_string(peer_id);
 
+    // Every accepted handshake (re)starts the session's key schedule: the peer does the same on
+    // its side, and the two ends only stay on one key if they count rotations from the same event.
+    const auto establish_session = [&] {
+        const auto shared_secret = network::KeyExchange::derive_shared_secret(identity_scalar_, remote_public_key);
+        const auto material = make_handshake_material(identity_public_, remote_public_key);
+        key_manager_.register_session_with_material(peer_id, shared_secret, material, now);
+        if (const auto session_key = key_manager_.current_key(peer_id)) {
+            sessions_.register_peer_key(peer_id, *session_key);
+        }
+    };
+
     const auto existing = handshake_state_.find(key);
     if (existing != handshake_state_.end()) {
         const auto elapsed = now - existing->second.last_attempt;
@@ -1990,6 +2001,7 @@ bool Node::perform_handshake(const PeerId& peer_id,
         if (existing->second.success && elapsed < config_.handshake_cooldown
             && existing->second.remote_public == remote_public_key
             && existing->second.remote_pow_nonce == remote_work_nonce) {
+            establish_session();
             return true;
         }
     }
@@ -2023,12 +2035,7 @@ bool Node::perform_handshake(const PeerId& peer_id,
 
     pow_counters_.handshake_success.fetch_add(1, std::memory_order_relaxed);
 
-    const auto shared_secret = network::KeyExchange::derive_shared_secret(identity_scalar_, remote_public_key);
-    const auto material = make_handshake_material(identity_public_, remote_public_key);
-    key_manager_.register_session_with_material(peer_id, shared_secret, material, now);
-    if (const auto key = key_manager_.current_key(peer_id)) {
-        sessions_.register_peer_key(peer_id, *key);
-    }
+    establish_session();
 
     reputation_.record_success(peer_id);
     record.success = true;
